@@ -202,6 +202,9 @@ def check(F, run, tier):
     obs, n = c05.member_extents(F, S)
     run.add([o for o in obs if "VolFile" in o.instance])
     run.add(uncompressed_kind(F, S))
+    from ..rules_archive import extraction_always_writes
+    ef = F.fn(VOL + "::ExtractFile", nparams=2, pred=lambda f: "basic_string" not in f.key.split("(")[1].split(",")[0])
+    run.add(extraction_always_writes(F, ef, VOL + "::ExtractFile"))
     obs, n = seq_obligations(F, "vol", with_reader=False, min_sites=10)
     run.add(obs)
     # the copy loop transfers exactly what the reader delivers (shared with C14)
